@@ -33,7 +33,7 @@
     wraps to a negative number and then panics "slice" (bytes) / gets errNegativeCount from `Peek` (bufiox) where the
     model — over `Nat` — reports EOF: see the examples at the end; no real slice or stream is that long); `Inv` is the reader-model invariant; the fuel bounds are those of `Tpl_Skip_eq_bytes/_bufiox`.
 -/
-import Verif.Lemmas.Funcs.TplG
+import Verif.Lemmas.Funcs.Tpl
 import Verif.Lemmas.Funcs.RdI
 set_option linter.unusedSimpArgs false
 namespace Verif.FuncsEq
